@@ -477,7 +477,7 @@ def space(tier, seed):
         for h in hs:
             ne = bin(h).count('1')
             for xn in (0, 1 << (n - 1)):
-                for xe in sorted({0, (1 << ne) - 1} | ({1 << k for k in range(ne)} if n == 3 or tier == 'thorough' else {1})):
+                for xe in sorted({0, (1 << ne) - 1} | ({1 << k for k in range(ne)} if n == 3 else {1})):
                     if not xn and not xe:
                         continue
                     for scope in ('both', 'base'):
